@@ -48,11 +48,13 @@ PROP = {
             "Frp.C20.scores_valid", "Frp.C20.recommand_complementary", "Frp.C20.recommand_row",
             "Frp.C20.mode1_hard_sends", "Frp.C20.mode2_hard_listens", "Frp.C20.mode4_regular_sends", "Frp.C20.role_rules_hold",
             "Frp.C20.ports_in_range", "Frp.C20.ports_out_of_range_witness",
-            "Frp.C20.analysis_pair_ok", "Frp.C20.analysis_full_partial", "Frp.C20.analysis_oor_witness",
+            "Frp.C20.analysisWith_pair_ok", "Frp.C20.analysis_pair_ok", "Frp.C20.analysis_full_partial", "Frp.C20.analysis_full",
+            "Frp.C20.classify_ok_valid", "Frp.C20.analysis_oor_witness", "Frp.C20.analysis_oor_now_error",
             "Frp.C20.analysis_error_both", "Frp.C20.analysis_malformed_error", "Frp.C20.honest_peers_meet",
             "Frp.C20.session_created_only_signed", "Frp.C20.allow_users_not_checked_witness",
             "Frp.C20.responses_only_to_involved", "Frp.C20.unknown_sid_noop",
             "Frp.C20.handler_rank_decreases", "Frp.C20.rank_not_increased", "Frp.C20.handler_progress",
+            "Frp.C20.wf_run", "Frp.C20.handler_never_stuck", "Frp.C20.leak_trace_now_recovers",
             "Frp.C20.sessions_deleted", "Frp.C20.rank_le_six", "Frp.C20.rank_zero_iff", "Frp.C20.blocked_no_handler_step", "Frp.C20.leak_witness",
             "Frp.C20.fullOk_sound", "Frp.C20.pairOk_sound", "Frp.C20.model_pairOk",
         ],
@@ -76,7 +78,8 @@ PROP = {
         "assumptions": [
             "md5 treated as injective (analysis keys and sign keys are represented by their md5 input)",
             "GenSid never repeats a live session id (model: visitorLookup is not enabled for a stored sid)",
-            "the owner loop of an xtcp proxy receives from sidCh exactly while its config is registered (xtcp.go Run/Close)",
+            "the owner loop of an xtcp proxy receives from sidCh exactly while its config is registered (xtcp.go Run/Close); "
+            "since 8d80cd3 this only decides whether the notify is received, not whether the handler ends",
             "time: NatHoleTimeout shortened to 1 s in the harness; the final sleep (ReadTimeoutMs+30 s) before the deferred "
             "delete is not waited for in the quick tier (deletion after it is covered by the model theorem only)",
             "'honest peers find each other' is proved on an abstract unfiltered-network reachability predicate, not on UDP",
@@ -88,14 +91,18 @@ META = {
         "design_ref": "DESIGN.md §6 C20",
         "technique": "Lean 4: decide over regenerated behaviour tables, invariant over all recommend/report histories, "
                      "small-step session model with rank argument; differential correspondence with the real nathole code",
-        "text": "Proof (partial at two named points): for every feature pair and every history of recommendations and "
-                "success reports the two responses carry the same sid and mode, complementary roles and each other's "
-                "addresses; role rules of modes 1/2/4 hold; port ranges are within 1..65535 for validated ports. Sessions "
-                "are created only for a correctly signed request naming a registered proxy, responses go only to the "
-                "session's visitor transporter and to a transporter that submitted a NatHoleClient for that sid, and "
-                "every handler step strictly lowers a rank so that sessions are deleted on every path. Two witnesses are "
-                "proved and reproduced on the real code (known findings): out-of-range ports are not rejected, and the "
-                "notify send has no timeout (session leak when the proxy closes in the window).",
+        "text": "Proof: for every feature pair and every history of recommendations and success reports the two "
+                "responses carry the same sid and mode, complementary roles and each other's addresses; role rules of "
+                "modes 1/2/4 hold; every successful analysis was computed from validated addresses and all its port "
+                "ranges satisfy 1 <= From <= To <= 65535, malformed or out-of-range addresses give the error pair "
+                "(analysis_full, analysis_malformed_error; repaired by f51e354). Sessions are created only for a "
+                "correctly signed request by an allowed user naming a registered proxy (allow list: C08 fix), responses "
+                "go only to the session's visitor transporter and to a transporter that submitted a NatHoleClient for "
+                "that sid, every handler step strictly lowers a rank, and in every reachable state every stored session "
+                "has an enabled handler step (handler_never_stuck; the notify send is bounded by NatHoleTimeout since "
+                "8d80cd3), so sessions are deleted on every path. The pinned tree's defects stay documented as "
+                "witness theorems about the old functions (analysis_oor_witness, leak_witness, "
+                "allow_users_not_checked_witness over classifyOld/stepOld).",
         "note": "Trusted: Lean kernel, translator for the tables, hand-written model tied by the nat engine. "
                 "Not covered: real NAT behaviour and UDP timing; the 30 s+ final sleep is not waited for in quick runs.",
     }
